@@ -102,6 +102,9 @@ let cmd_replay (req : json) : json =
                                    | ExitSameUndefined _ -> "same_undefined" | ExitCap (_, _) -> "cap")) ]
   | NoExitWithin n -> Obj [ ("passes", jnat n); ("exit", Str "noexit") ]
 
+let cmd_clash (_ : json) : json = jsite (fun () -> Null) spanless_clash
+let cmd_prg (req : json) : json = jsite (fun (a, b) -> Arr [ jz a; jz b ]) (prg_header (to_z (field req "start")))
+
 let cmd_consts (_ : json) : json =
   Obj [ ("max_iterations", jopt jnat max_iterations); ("cap_reports_diagnostic", Bool cap_reports_diagnostic);
         ("nesting_depth_limit", jopt jnat nesting_depth_limit); ("parser_nesting_limit", jopt jnat parser_nesting_limit);
@@ -109,4 +112,4 @@ let cmd_consts (_ : json) : json =
         ("nested_call_returns", Bool (match nested_call_of_same_function with CallReturns -> true | CallDeadlocks -> false)) ]
 
 let () = main_loop [ ("binop", cmd_binop); ("literal", cmd_literal); ("stmt", cmd_stmt); ("name", cmd_name); ("segment", cmd_segment); ("loop", cmd_loop);
-                     ("depth", cmd_depth); ("bank", cmd_bank); ("branch", cmd_branch); ("nesting", cmd_nesting); ("enter", cmd_enter); ("replay", cmd_replay); ("consts", cmd_consts) ]
+                     ("depth", cmd_depth); ("bank", cmd_bank); ("clash", cmd_clash); ("prg", cmd_prg); ("branch", cmd_branch); ("nesting", cmd_nesting); ("enter", cmd_enter); ("replay", cmd_replay); ("consts", cmd_consts) ]
